@@ -12,15 +12,18 @@ open Model.Writer Lemmas.WriterTotal Lemmas.WriterLines
 
 /-- **C02_total.**  `cif_write` in CIF 2.0 mode, for every walk order (`WCif`): on every writable CIF — every loop holds a
     packet; every scalar data name has at least two units and at most 2048 characters; every number has a non-empty text
-    (`containersOk`: true of every CIF built through the API) — it succeeds, or it fails with CIF_DISALLOWED_VALUE, and then
+    (`containersOk`: true of every CIF built through the API) — and whose strings, number texts and table keys hold no CR and only
+    characters CIF 2.0 allows (`containersClean false`: the property's "names and strings use only CIF 2.0 characters (no CR)";
+    since the repairs of F-cr-altered / F-disallowed-char-written `write_char` refuses anything else: `C02_cr_refused`,
+    `C02_disallowed_char_refused`, `C02_success_implies_clean`) — it succeeds, or it fails with CIF_DISALLOWED_VALUE, and then
     the CIF holds a table with at least one entry (the only refusal left in the CIF 2.0 writer is that of a table key:
     `writeChar_key_good`, and of a key that leaves no room for its colon).  No other result code is possible: not CIF_ERROR,
     not CIF_OVERLENGTH_LINE, not CIF_INTERNAL_ERROR, not CIF_EMPTY_LOOP. -/
-theorem C02_total (cif : WCif) (hok : containersOk cif) :
+theorem C02_total (cif : WCif) (hok : containersOk cif) (hcl : containersClean false cif) :
     (∃ out, writeCif 0 cif = .ok out)
     ∨ (writeCif 0 cif = .error Gen.ErrCodes.CIF_DISALLOWED_VALUE ∧ containersHaveEntry cif) := by
   have h2 : ({ version := 0 } : Ctx).isCif1 = false := rfl
-  have hg := containers_good cif { version := 0 } h2 hok
+  have hg := containers_good cif { version := 0 } h2 hok hcl
   unfold writeCif
   simp only [show ¬ ((0 : Nat) = 1) by decide, ↓reduceIte, h2, Bool.false_eq_true]
   rcases hg with ⟨o, c', he, _⟩ | ⟨he, hw⟩
@@ -30,9 +33,9 @@ theorem C02_total (cif : WCif) (hok : containersOk cif) :
     simp [andThen, he, hw]
 
 /-- values without any table entry are never refused: a CIF without tables is always written -/
-theorem C02_total_no_tables (cif : WCif) (hok : containersOk cif) (hnt : ¬ containersHaveEntry cif) :
+theorem C02_total_no_tables (cif : WCif) (hok : containersOk cif) (hcl : containersClean false cif) (hnt : ¬ containersHaveEntry cif) :
     ∃ out, writeCif 0 cif = .ok out := by
-  rcases C02_total cif hok with h | ⟨_, hw⟩
+  rcases C02_total cif hok hcl with h | ⟨_, hw⟩
   · exact h
   · exact absurd hw hnt
 
